@@ -73,6 +73,8 @@ class StubSim(mosaik_api_v3.Simulator):
 
     def setup_done(self):
         self.ctx.ev("U", self.sid)
+        if getattr(self.ctx, "on_setup_done", None):
+            self.ctx.on_setup_done(self)
         yield from self._fault_point("setup_done", 0)
         if "setup_done" in self.ctx.gate_kinds and self.ctx.gated:
             yield self.ctx.loop.gate((self.sid, "setup_done", 0))
@@ -89,6 +91,10 @@ class StubSim(mosaik_api_v3.Simulator):
         if "step" in self.ctx.gate_kinds and self.ctx.gated:
             yield self.ctx.loop.gate((self.sid, "step", k))
         sp = self.spec
+        lat = self.ctx.latency(self, k) if getattr(self.ctx, "latency", None) else 0
+        if lat:
+            import asyncio
+            yield asyncio.sleep(lat)       # on the virtual clock
         # asynchronous requests towards mosaik (C16)
         for act in (sp.get("async") or {}).get(str(k), []):
             yield from self._async_action(act, k, time)
